@@ -46,6 +46,11 @@ func readTlvStream(
 				break
 			}
 
+			// The length is attacker-controlled: a block larger than the maximum packet size is invalid,
+			// and converting a huge value to int would make tlvSize negative
+			if len > defn.MaxNDNPacketSize {
+				return errors.New("received TLV block larger than the maximum packet size")
+			}
 			tlvSize := typ.EncodingLength() + len.EncodingLength() + int(len)
 
 			if recvOff-tlvOff >= tlvSize {
